@@ -215,11 +215,9 @@ def run(rep):
     cross = []
     validate_source_map(rep)
     check_source_map(rep, cross)
-    try:
-        from . import c20trace
-        c20trace.check(rep, cross)
-    except ImportError:
-        pass
+    from . import c20trace, lexk
+    c20trace.check(rep, cross)
+    lexk.check(rep, cross, 'C20')
     rep.cross = driver.cross_check(cross, 300, 'ALL', rep.tier, rep.seed)
     rep.extra['cross_checked_obligations'] = len(cross)
 
